@@ -130,6 +130,14 @@ class Engine(ExprMixin, StmtMixin, CallMixin, EngineBase):
         a = fdef.args
         names = [x.arg for x in a.posonlyargs + a.args + a.kwonlyargs]
         for n in names:
+            if n in getattr(con, "const_params", {}):
+                cv = con.const_params[n]
+                if isinstance(cv, tuple):
+                    items = tuple(self.const_val(x) for x in cv)
+                    st.locals[n] = Val(("tuple",) + tuple(i.t for i in items), items)
+                else:
+                    st.locals[n] = self.const_val(cv)
+                continue
             if n == "self" and n not in con.params:
                 t = ref(cls)
             elif n in con.params:
